@@ -359,10 +359,6 @@ func judge(c *Case) verdict {
 	}
 	base := dumpTypes(src, c.Strict)
 	for _, name := range c.Rewrites {
-		if c.Placement == "eval" && !c.Strict && (name == "R1-const-to-var" || name == "R2-capture") && hasFuncDecl(c.Prog) {
-			evid.Excluded("known finding: function declared in sloppy eval code cannot see the eval's let bindings")
-			continue
-		}
 		q, ok := applyRewrite(name, c.Prog, c.Strict)
 		if !ok || q == nil {
 			continue
@@ -395,10 +391,6 @@ func judge(c *Case) verdict {
 func genCase(t *rapid.T) *Case {
 	prog, strict := j0.GenProgram(t)
 	c := &Case{Prog: prog, Strict: strict, Placement: rapid.SampledFrom([]string{"global", "function", "eval"}).Draw(t, "placement")}
-	if c.Placement == "eval" && !strict && j0.HasTopLevelLexicalAndFunction(prog) {
-		evid.Excluded("known finding: sloppy global eval with a top-level lexical declaration and a function declaration")
-		c.Placement = "function"
-	}
 	n := rapid.IntRange(1, 3).Draw(t, "nrw")
 	for i := 0; i < n; i++ {
 		c.Rewrites = append(c.Rewrites, rapid.SampledFrom(rewriteNames).Draw(t, "rw"))
@@ -408,7 +400,8 @@ func genCase(t *rapid.T) *Case {
 
 // knownAvoid: generator restrictions still needed because the corresponding goja
 // defect is recorded as a known finding (everything else has been fixed).
-var fixedDefects = []string{"seq-logical-first", "lexical-after-branch", "const-dead-branch"}
+var fixedDefects = []string{"seq-logical-first", "lexical-after-branch", "const-dead-branch", "logical-assign-prim", "pattern-prim-target",
+	"arrow-arguments", "eval-rest-default", "eval-surplus-args", "nested-labels-continue", "key-side-effects"}
 
 func TestQuickPrograms(t *testing.T) {
 	for _, k := range fixedDefects {
